@@ -23,6 +23,12 @@ CLAIMED = {
  "C16": ("exploration", "property-based round-trip and mutation testing (Hypothesis) plus fault enumeration of a save at every system-call boundary (strace SIGKILL injection)",
          "Generated nested values (64-bit ints, floats, UTF-8 strings with every escape-worthy byte, arrays, mappings, class instances up to and past the nesting limit) are round-tripped through save_variable/restore_variable and save_object/restore_object (with static and object-valued variables); valid, truncated and byte-mutated save texts are restored (value or LPC error, re-save stable, no sanitizer report); a save_object replacing an existing file is killed at every file-related system call and the file must hold exactly the old or the new contents.",
          "Floats compared to the printed precision (relative 2e-6); subnormal floats and '\\r' in strings excluded by construction (the latter is a listed known finding); crash points are system-call boundaries."),
+ "C07": ("exploration", "property-based testing (Hypothesis): generated inheritance graphs x call histories; metamorphic history-independence oracle plus a Python resolver for visibility/resolution",
+         "Inheritance graphs (1-5 programs, multiple inheritance, inherit and function modifiers) and call histories over eight origins (call_other by variable and by literal name, driver apply, call_out through the real backend by variable and literal name, local call, function pointer, function_exists). Every call's outcome must equal the same call made first in a fresh driver; hidden functions must not answer call_other while driver-made and local calls run them; results are compared with a Python resolver where it is unambiguous; the tag returned proves the callee's variable offset.",
+         "Resolution/visibility expectations only where the resolver is certain (no private hiding, no diamond with mixed modifiers)."),
+ "C20": ("exploration", "stateful model-based property testing (Hypothesis histories vs a Python model of the uid rules)",
+         "Histories of driver loads, load/clone/call_other-by-path by objects, seteuid, export_uid, destruct and master policy changes over files with root / backbone / wizard / open / non-string creators; after every step the (uid, euid) census of all live objects is compared with the model, creation by an euid-0 object must raise an error and create nothing, and the master's apply log must show valid_seteuid / creator_file consulted.",
+         "Model written from docs/efuns/seteuid.md, export_uid.md, the master applies docs and give_uid_to_object()'s documented rules (same uid, AUTO_TRUST_BACKBONE)."),
 }
 NA_REASON = "check not yet built in this session (machinery under construction; see DESIGN.md section 4 for the planned check)"
 
